@@ -62,6 +62,7 @@ func (s *defaultSender) updateWindow(add uint32) {
 		return
 	}
 	prevWindow := s.currentWindow.Add(add) - add
+	verifYield("fc.update.added")
 	if prevWindow == 0 {
 		select {
 		case s.windowUpdates <- struct{}{}:
@@ -81,9 +82,11 @@ func (s *defaultSender) send(data []byte) error {
 	first := true
 	for {
 		windowSz := s.currentWindow.Load()
+		verifYield("fc.send.loaded")
 
 		if windowSz == 0 {
 			// must wait for window size update before we can send more
+			verifYield("fc.send.beforeWait")
 			select {
 			case <-s.windowUpdates:
 			case <-s.ctx.Done():
@@ -99,10 +102,12 @@ func (s *defaultSender) send(data []byte) error {
 		if chunkSz > chunkMax {
 			chunkSz = chunkMax
 		}
+		verifYield("fc.send.beforeCAS")
 		if !s.currentWindow.CompareAndSwap(windowSz, windowSz-chunkSz) {
 			continue
 		}
 
+		verifYield("fc.send.reserved")
 		last := chunkSz == uint32(len(data))
 		if err := s.sendFunc(data[:chunkSz], size, first); err != nil {
 			return err
@@ -195,6 +200,7 @@ func (r *defaultReceiver[T]) dequeue() (T, bool) {
 		// TODO: Support minimum update size, so we can batch
 		//       updates and send fewer messages over the network.
 		if windowUpdate > 0 {
+			verifYield("fc.dequeue.beforeCredit")
 			r.updateWindow(uint32(windowUpdate))
 		}
 	}()
